@@ -32,3 +32,6 @@ register(Unit(P, "LEMMA/IMMUT", _L.h_immut, functions=[], replay=S._replay_carry
 
 from contracts import helpers as _HLP  # noqa: E402
 _HLP.register_under("C09", ["HELPER/validate_data_files", "HELPER/validate_file_exists"])
+
+from contracts import commitpath as _cpl  # noqa: E402
+register(Unit("C09", "LIST-ENTRIES/create_manifest_list_file", _cpl.h_manifest_list_entries, functions=["file_manager:FileManager.create_manifest_list_file"], replay=None))
